@@ -1322,14 +1322,17 @@ def norm(node, limit=160) -> str:
 def walk_no_nested(node):
     """ast.walk that does not descend into nested function/class defs
     (the root itself may be a def)."""
-    stack = list(ast.iter_child_nodes(node))
+    # pre-order, children in source order: statements come out in the order
+    # in which they are written (also the statements an inlined helper
+    # contributed, which all carry the line number of the call)
+    stack = list(ast.iter_child_nodes(node))[::-1]
     while stack:
         n = stack.pop()
         yield n
         if isinstance(n, (ast.FunctionDef, ast.AsyncFunctionDef,
                           ast.ClassDef, ast.Lambda)):
             continue
-        stack.extend(ast.iter_child_nodes(n))
+        stack.extend(list(ast.iter_child_nodes(n))[::-1])
 
 
 def calls_in(node, nested=True):
